@@ -42,6 +42,12 @@ CLAIMED = {
         "Trusted: reference tokeniser; the restated normalisation rule tolerates both spellings where the documentation is silent.",
         "DESIGN.md section 3, C16",
     ),
+    "C03": (
+        "runtime monitor over generated well-formed messages: independent layout table + documented-format exemplars; acceptance, byte-exact reproduction, JSON placement/coverage oracle",
+        "Exploration: messages generated from an independent layout specification of the 30 types (minimal, maximal, each optional alone, every option letter at every position, seeded random shapes with repeated fields and 1-11 sequence occurrences, boundary-length contents) must be accepted, reproduced byte for byte, and every written occurrence must be found under its tag and sequence index in the model with exactly its components (coverage of JSON leaves against the written content).",
+        "Trusted base: spec/layout.rs (SR2025 layouts restricted to options the crate's types document) and spec/exemplar.rs; disagreements were triaged in both directions (DESIGN.md section 8).",
+        "DESIGN.md section 3, C03",
+    ),
     "C07": (
         "runtime monitor: catch_unwind + panic-hook over all public entry points on hostile/mutated inputs; CPU-time size ramps",
         "Exploration: every public parse / validate / serialise / JSON / error-rendering entry point is executed under a panic monitor on corpus-derived, systematically and randomly mutated inputs (non-ASCII, truncation, structure characters, size ramps); held = no panic/timeout outside the listed known findings on the executions observed.",
